@@ -203,6 +203,16 @@ impl Prop for C09 {
                             }
                         }
                     }
+                    // two levels, the intermediate type sorting before and after the including one (last position: the
+                    // placement of the included components is a known finding of its own)
+                    for inter in ["Maa", "Mzz"] {
+                        let l1 = format!("{inter} ::= {kind} {{ m0 BOOLEAN, COMPONENTS OF {pool} }}");
+                        let l1e = format!("{inter} ::= {kind} {{ m0 BOOLEAN, {inlined} }}");
+                        push("components-of", format!("components-of|kind={kind}|names={pool}+{inter}|two-levels-last|ref-marker={ref_marker}"), vec![refd.clone(), l1.clone(), format!("Mid ::= {kind} {{ t NULL, COMPONENTS OF {inter} }}")], vec![refd.clone(), l1e.clone(), format!("Mid ::= {kind} {{ t NULL, m0 BOOLEAN, {inlined} }}")], vec!["Mid"]);
+                        // COMPONENTS OF a reference to a reference
+                        let alias = format!("{inter} ::= {pool}");
+                        push("components-of", format!("components-of|kind={kind}|names={pool}+{inter}|of-alias|ref-marker={ref_marker}"), vec![refd.clone(), alias.clone(), format!("Mid ::= {kind} {{ t NULL, COMPONENTS OF {inter} }}")], vec![refd.clone(), alias.clone(), format!("Mid ::= {kind} {{ t NULL, {inlined} }}")], vec!["Mid"]);
+                    }
                     // two levels
                     let lvl1 = format!("Mmm ::= {kind} {{ m0 BOOLEAN, COMPONENTS OF {pool} }}");
                     let lvl1e = format!("Mmm ::= {kind} {{ m0 BOOLEAN, {inlined} }}");
